@@ -95,6 +95,33 @@ func emitC15(c *ctx, size int, ms []tak.Move, kind string, check bool) {
 	}
 }
 
+// pseudoSymmetric: some non-identity symmetry maps the top view (top piece and height of every square) onto
+// itself but not the full stacks.
+func pseudoSymmetric(a *aboard) bool {
+	for i := 1; i < 8; i++ {
+		b := symBoard(i, a)
+		top, full := true, true
+		for y := 0; y < a.n && top; y++ {
+			for x := 0; x < a.n && top; x++ {
+				s1, s2 := a.sq[y][x], b.sq[y][x]
+				if len(s1) != len(s2) || (len(s1) > 0 && s1[0] != s2[0]) {
+					top = false
+					break
+				}
+				for k := range s1 {
+					if s1[k] != s2[k] {
+						full = false
+					}
+				}
+			}
+		}
+		if top && !full {
+			return true
+		}
+	}
+	return false
+}
+
 func runC15(c *ctx) {
 	r := c.r
 	for g := 0; g < 150*c.scale; g++ {
@@ -128,6 +155,43 @@ func runC15(c *ctx) {
 			emitC15(c, size, bad, "illegal", false)
 		}
 	}
+	// directed search: positions that look symmetric from above (tops and heights) under some symmetry while the
+	// captives differ only arise from stacking and are rare (about 1 game in 400); hunt for them with cheap
+	// playouts and emit the game up to there plus a few continuations
+	hits := 0
+	for g := 0; g < 6000*c.scale && hits < 25*c.scale; g++ {
+		size := 3 + g%3
+		p := tak.New(tak.Config{Size: size})
+		var ms []tak.Move
+		for k := 0; k < 10+r.Intn(16); k++ {
+			if over, _ := p.GameOver(); over {
+				break
+			}
+			legal := legalMoves(p)
+			if len(legal) == 0 {
+				break
+			}
+			m := pickMove(r, p, legal, []int{1, 1, 5, -1}[r.Intn(4)])
+			q, err := p.Move(m)
+			if err != nil {
+				break
+			}
+			p = q
+			ms = append(ms, m)
+			if pseudoSymmetric(absOf(p)) {
+				if over, _ := p.GameOver(); over {
+					break
+				}
+				hits++
+				next := legalMoves(p)
+				for t := 0; t < 4 && len(next) > 0; t++ {
+					emitC15(c, size, append(append([]tak.Move(nil), ms...), next[r.Intn(len(next))]), "pseudo-symmetric", true)
+				}
+				break
+			}
+		}
+	}
+	c.stat("pseudo_symmetric_positions_found", int64(hits))
 	// exhaustive: all games of <= 2 plies (3 in thorough) on 3x3 and 4x4
 	depth := 2
 	if !c.quick() {
